@@ -156,4 +156,4 @@ def run(ctx):
     ctx.exhaustive('all strings of length ≤ %d over the stylesheet alphabet (23 symbols) × 5 fixed configurations' % L)
     ctx.run_parallel('shard_prefixes')
     ctx.run_parallel('shard_mutants', extra=(ctx.pick(1500, 30000),))
-    ctx.run_parallel('shard_hypothesis', extra=(ctx.pick(200, 12000),))
+    ctx.run_parallel('shard_hypothesis', extra=(ctx.pick(200, 4000),))
